@@ -176,7 +176,7 @@ func (r *Roles) Classifier(m Mode) func(ci *eng.CallInfo) *eng.Disposition {
 					return &eng.Disposition{Act: eng.ActEvent, Class: "cfg:" + g}
 				}
 			}
-			switch f.String() {
+			switch eng.CalleeName(f) {
 			case "time.After":
 				return &eng.Disposition{Act: eng.ActEvent, Class: "time.After"}
 			case "time.NewTimer":
